@@ -323,7 +323,8 @@ func Main(t *testing.T) {
 		fmt.Fprintf(os.Stderr, "hx: unknown harness %q\n", name)
 		os.Exit(2)
 	}
-	debug.SetGCPercent(200)
+	debug.SetGCPercent(int(envU("VERIF_GCPERCENT", 200)))
+	debug.SetMemoryLimit(int64(envU("VERIF_MEMLIMIT_MB", 4096)) << 20)
 	out := os.Getenv("VERIF_OUT")
 	if rp := os.Getenv("VERIF_REPLAY"); rp != "" {
 		replay(t, h, rp, out)
